@@ -1,6 +1,6 @@
 SPECIFICATION Spec
 CONSTANT MaxGiven = 8
-CONSTANT AllInvalid = TRUE
+CONSTANT Combo = "all"
 INVARIANT TypeOK
 INVARIANT Total
 INVARIANT GivenReaches
